@@ -11,9 +11,15 @@ def oldLabel : Nat × Nat := (1, 1)
 
 def applyMod (n : Nat) (c : Chunk) (m : String) : Option Chunk :=
   let num (pre : String) : Option Nat := if m.startsWith pre then (m.drop pre.length).toString.toNat? else none
-  if m == "sum" then some { c with sumOk := false }
-  else if m == "data" then some { c with sumOk := false, data := (c.data.1, false) }
-  else if m == "fix" then some { c with sumOk := true, data := (c.data.1, false) }
+  if m == "sum" then some { c with sumLen := 4, sumMatch := false }
+  else if m == "data" then some { c with sumLen := 4, sumMatch := false, data := (c.data.1, if c.data.2 == .empty then .empty else .altered) }
+  else if m == "fix" then some { c with sumLen := 4, sumMatch := true, data := (c.data.1, if c.data.2 == .empty then .empty else .altered) }
+  else if m == "empty" then some { c with sumLen := 4, sumMatch := true, data := (c.data.1, .empty) }
+  else if m == "lost" then some { c with sumLen := 0, sumMatch := true, data := (c.data.1, .empty) }
+  else if m.startsWith "sumlen" then
+    match (m.drop 6).toString.toNat? with
+    | some k => some { c with sumLen := k, sumMatch := true }
+    | none => none
   else if m == "nometa" then some { c with md := .none }
   else if m == "meta" then some { c with md := .label genuineLabel.1 genuineLabel.2 }
   else if m == "nolast" then some { c with md := .noLast }
@@ -33,7 +39,7 @@ def parseItem (n : Nat) (s : String) : Option Chunk :=
     if i ≥ n then none else
     let base : Chunk := { seq := i, total := n, term := genuineLabel.2, leader := 1,
                           md := if i == 0 then .label genuineLabel.1 genuineLabel.2 else .none,
-                          sumOk := true, data := (i, true) }
+                          sumLen := 4, sumMatch := true, data := (i, .pristine) }
     -- `fix` after `data` restores a valid checksum, `sum`/`data` after `fix` break it again: mods apply in order
     mods.foldlM (applyMod n) base
 
@@ -68,7 +74,7 @@ def showAck (a : Ack) : String :=
 
 def showContent (n : Nat) : Content → String
   | .old => "OLD"
-  | .toks l => if l == (List.range n).map (fun i => (i, true)) then "A" else "cat"
+  | .toks l => if l.filter (·.2 ≠ .empty) == (List.range n).map (fun i => (i, Kind.pristine)) then "A" else "cat"
 
 def insertSorted (x : String) : List String → List String
   | [] => [x]
